@@ -680,6 +680,7 @@ func init() {
 			return repeat(f.Int("reps"), func() string { return dslOutcome(builder.Parse(font, txt)) })
 		}))
 	}
+	ops["dsl.glyphbound"] = dslGlyphBound
 	// comments do not change what a text means: parse the text and the text without its comments
 	ops["dsl.comments"] = func(f Fields) string {
 		return dslCanonPanic(guard(func() string {
@@ -1258,7 +1259,7 @@ func glyphSpell(r *Rng, d dslFont, g int) string {
 // genRange writes a glyph range: ascending, descending or of one element; the end points favour
 // 0, 1 and n-1; the hyphen with and without spaces (without, `3-1` is lexed as 3 and -1).
 func genRange(r *Rng, d dslFont) (string, string) {
-	ends := []int{0, 0, 1, 1, d.n - 1, d.n - 1, d.n - 2, d.n / 2, r.Intn(d.n), d.n}
+	ends := []int{0, 0, 1, 1, d.n - 1, d.n - 1, d.n - 2, d.n / 2, r.Intn(d.n), d.n, d.n, d.n + 1, 65535, 65536}
 	a, b := Pick(r, ends), Pick(r, ends)
 	if a < 0 {
 		a = 0
@@ -1299,6 +1300,10 @@ func genRangeText(c *Ctx, d dslFont) string {
 			c.Stat("range.kind", kind)
 		} else {
 			rep = glyphSpell(r, d, r.Intn(d.n))
+			if r.Chance(1, 3) { // a glyph number at or just beyond the end of the font
+				rep = strconv.Itoa(Pick(r, []int{d.n - 1, d.n, d.n, d.n + 1, 65535, 65536}))
+				c.Stat("range.kind", "single number near the glyph count")
+			}
 		}
 		t = strings.Replace(t, "%s", rep, 1)
 	}
@@ -1433,6 +1438,8 @@ func areaDsl(c *Ctx) {
 					t += "\n" + genRangeText(c, d)
 				}
 				c.Stat("parse.text", "glyph ranges")
+				// D: whatever Parse accepts names glyphs of the font only and can be explained again
+				c.Case(Direct, "dsl.glyphbound", d.args()+" text="+hx([]byte(t)), true)
 			case 0:
 				t = Pick(r, pool)
 				if r.Bool() {
